@@ -924,12 +924,13 @@ def check(run, replay):
     if EXTRACT["error"] and not run.violations:
         run.violation("broken-obligation", "translator:task_ranking annotation/histogram statements", found_input=False,
                       extra=EXTRACT["error"] + " (replicated statements used instead; no failing input found with them)")
-    run.oblige("instrumentation:small sketch (p/m/width/warmup_size set on a fresh HyperLogLog instance) behaves as a sketch",
-               DEVICE["error"] is None, DEVICE["error"] or "")
-    if DEVICE["error"] and not run.violations:
-        run.violation("broken-obligation", "instrumentation:small sketch device", found_input=False,
-                      extra=DEVICE["error"] + " (tables re-judged with the default-size sketch, scale cases unaffected; no failing "
-                      "input found)")
+    # The small-sketch device is a cheaper way to cross the warm-up boundary, not a proof obligation: when a rewrite of the
+    # sketch makes attribute-poked instances inconsistent, the tables are judged with the default-size sketch (they stay warm,
+    # which is all C13 claims; the converted phase is C14's subject) and the evidence says so.
+    run.cov["small_sketch_device_usable"] = DEVICE["error"] is None
+    if DEVICE["error"]:
+        run.notes.append("small-sketch device unusable on this tree (%s): smallcap tables judged with the default-size sketch"
+                         % DEVICE["error"])
     run.oblige("correspondence:statistics of every history = model = specification of the concatenation", nviol == 0,
                "" if nviol == 0 else "%d disagreements" % nviol)
     run.oblige("correspondence:split independence observed on the implementation", "C13_split_indep" not in seen_obl)
